@@ -11,7 +11,7 @@ PS_CONSTS = """  MaxExecDepth = 100
 
 def run_mbt(ctx, module, consts, label, base_heap="Heap0", invariants=("Emit", "Inv"),
             simulate=None, depth=None, timeout=1500, outfile=None, workers=None, extra_cfg="",
-            properties=()):
+            properties=(), replay_args=()):
     """Run a generating configuration and replay its vectors into the library.
     Returns the harness summary."""
     outfile = outfile or (label + ".ndjson")
@@ -36,7 +36,7 @@ def run_mbt(ctx, module, consts, label, base_heap="Heap0", invariants=("Emit", "
     vec = os.path.join(d, outfile)
     if not os.path.exists(vec) or os.path.getsize(vec) == 0:
         raise core.Broken("%s: the specification emitted no vectors" % label)
-    summ = ctx.vh_json("replay-ps", "-base", os.path.join(d, basefile), vec, timeout=3000)
+    summ = ctx.vh_json("replay-ps", *replay_args, "-base", os.path.join(d, basefile), vec, timeout=3000)
     return summ, vec, os.path.join(d, basefile)
 
 
